@@ -115,11 +115,26 @@ Proof. exact num_fri_layers_fuel. Qed.
 Print Assumptions C06_num_fri_layers_fuel.
 
 (* ============================================================================================ stage 3: verify() *)
-(* [wfAir]: a supported base field (element size, modulus bytes, two-adicity >= 31: f64, f128, f62 qualify), 1..255
+(* [wfAir]: a supported base field (element size >= 2, modulus halves convertible, 256^(ELEMENT_BYTES-1) <= modulus,
+   two-adicity >= 31: f64, f128, f62 qualify), 1..255
    constraint composition columns, no Lagrange kernel column.  [Known A p]: the trace layout or blowup factor claimed by
    the proof is not what the AIR was written for. *)
 Example C06_wfField_supported : wfField F64P /\ wfField F128P /\ wfField F62P.
 Proof. exact wfField_supported. Qed.
+
+(* Context::to_elements (the coin seed, built from the untrusted context before anything else): with metadata chunks of
+   ELEMENT_BYTES - 1 bytes every chunk is a canonical element, for ANY metadata bytes; with full-width chunks it is not *)
+Theorem C06_to_elements_total : forall F c, wfField F -> is_bytes (ti_meta (ctx_trace_info c)) ->
+  ctx_modulus c = fp_modbytes F -> to_elements_ok (META_CHUNK F) F c = true.
+Proof. exact to_elements_total. Qed.
+Print Assumptions C06_to_elements_total.
+
+Theorem C06_to_elements_full_chunk_refuted :
+  to_elements_ok 8 F64P (mkCtx (mkTI 1 0 0 8 [1; 0; 0; 0; 255; 255; 255; 255]) (fp_modbytes F64P) (mkPO 1 2 0 FE_None 2 0)) = false /\
+  of_le_bytes [1; 0; 0; 0; 255; 255; 255; 255] = M64 /\
+  to_elements_ok (META_CHUNK F64P) F64P (mkCtx (mkTI 1 0 0 8 [1; 0; 0; 0; 255; 255; 255; 255]) (fp_modbytes F64P) (mkPO 1 2 0 FE_None 2 0)) = true.
+Proof. exact to_elements_full_chunk_refuted. Qed.
+Print Assumptions C06_to_elements_full_chunk_refuted.
 
 (* verifying any parsed proof against any public inputs (AIR parameters), under any acceptance policy, whatever the
    value-dependent checks answer (orc) and however many distinct positions are drawn (k) or left after folding (kf),
